@@ -118,6 +118,22 @@ def run(ctx, chk):
                 neq += check_kmer_eq(chk, cfg, b, pol, what, rhs)
             elif st == "seq::slice::SeqSlice<A>" and rhs == "&str":
                 neq += check_slice_str(chk, cfg, b, what)
+            elif re.match(r"^&?(seq::Seq<|seq::slice::SeqSlice<|seq::array::SeqArray<)", st) or re.match(r"^&?(seq::Seq<|seq::slice::SeqSlice<|seq::array::SeqArray<|kmer::Kmer<)", rhs):
+                # an equality impl on a sequence type outside the table: it must delegate to a verified one on the contents
+                paths, _ = an.analyse(cfg, b, policy=an.NoInline())
+                r = [p for p in paths if p.end == "return"]
+                ok = False
+                got = "; ".join(p.describe()[:160] for p in paths)
+                if len(r) == 1 and not r[0].guards and r[0].ret[0] == "call" and re.search(r"PartialEq(<[^>]*(<[^>]*>)?[^>]*>)?>::eq$|PartialEq(<.*>)? for .*>::eq$", r[0].ret[1]):
+                    args = r[0].ret[2]
+                    def base(t):
+                        while isinstance(t, tuple) and t[0] == "seqview":
+                            t = t[1]
+                        return t
+                    ok = len(args) == 2 and {base(args[0]), base(args[1])} == {P(1), P(2)} and "seq::" in r[0].ret[1] + " kmer::" and \
+                        ("seq::slice::SeqSlice" in r[0].ret[1] or "seq::Seq" in r[0].ret[1] or "kmer::Kmer" in r[0].ret[1])
+                chk.ob("S-eq/new", what, ok, "equality impl without a row: it must be a plain delegation to a verified sequence comparison on the two operands' contents; got " + got,
+                       b["span"], kind="cannot-establish")
         # `ne` must stay the negation of `eq`: no impl overrides it
         an.no_overrides(chk, bio, "I-override", "sequence types", PEQ, r"^&?(seq::Seq<|seq::slice::SeqSlice<|kmer::Kmer<)", ("eq",))
         an.no_overrides(chk, bio, "I-override", "sequence types", "std::hash::Hash", r"^&?(seq::Seq<|seq::slice::SeqSlice<|kmer::Kmer<)", ("hash",))
